@@ -18,6 +18,7 @@ import BumpVerif.Gen.FnVec
 import BumpVerif.Gen.FnVecDrain
 import BumpVerif.Gen.FnVecIntoIter
 import BumpVerif.Gen.FnVecFilter
+import BumpVerif.Gen.FnVecCopy
 import BumpVerif.Gen.FnLossy
 import BumpVerif.Gen.FnStr
 import BumpVerif.Gen.FnBox
@@ -311,6 +312,17 @@ def main : IO Unit := do
   out := add (firstDiff "Vec::reserve" (vci.map fun (c, v, i) =>
     (vtag c v ++ s!" additional={i}", showM (RsM.toModel (Gen.Fn.vec_reserve c i (v, w0))),
       showM (match V.rawReserve c v v.len i with | some v' => (v', w0, some ()) | none => (v, w0, none))))) out
+  let srcs : List (List V.Elem) := [[], [⟨90, 9⟩], [⟨91, 1⟩, ⟨92, 2⟩, ⟨93, 3⟩], (List.range 9).map fun i => ⟨200 + i, i⟩]
+  out := add (firstDiff "Vec::extend_from_slice_copy" ((vc.flatMap fun (c, v) => srcs.map fun src => (c, v, src)).map fun (c, v, src) =>
+    (vtag c v ++ s!" src={repr src}", showM (RsM.toModel (Gen.Fn.vec_extend_from_slice_copy c (src.map some) (v, w0))), showM (V.extendFromSliceCopy c v src w0)))) out
+  out := add (firstDiff "Vec::append" ((vc.flatMap fun (c, v) => vc.filterMap fun (c2, b) => if c2.esz == c.esz && c2.eal == c.eal && c2.needsDrop == c.needsDrop && b.len ≤ 3 then some (c, v, b) else none).map fun (c, v, b) =>
+    (vtag c v ++ " other=" ++ vtag c b,
+      (match RsM.toModel (Gen.Fn.vec_append_elements c (b.slots.take b.len) (v, w0)) with
+        | (a', w', some ()) => s!"{repr a'} {repr ({ b with len := 0 } : V.VS)} evs={repr w'.evs} bad={repr w'.bad} ok"
+        | (a', w', none) => s!"{repr a'} {repr b} evs={repr w'.evs} bad={repr w'.bad} panic"),
+      (match V.append c v b w0 with
+        | (a', b', w', some ()) => s!"{repr a'} {repr b'} evs={repr w'.evs} bad={repr w'.bad} ok"
+        | (a', b', w', none) => s!"{repr a'} {repr b'} evs={repr w'.evs} bad={repr w'.bad} panic")))) out
   -- the lossy UTF-8 chunker on all strings of up to 3 boundary bytes (and a few longer ones)
   let bs : List UInt8 := [0x00, 0x41, 0x7F, 0x80, 0x8F, 0x90, 0x9F, 0xA0, 0xBF, 0xC0, 0xC2, 0xDF, 0xE0, 0xE1, 0xEC, 0xED, 0xEE, 0xEF, 0xF0, 0xF1, 0xF3, 0xF4, 0xF5, 0xFF]
   let strs : List (List UInt8) := (bs.map fun a => [a]) ++ (bs.flatMap fun a => bs.map fun b => [a, b]) ++
